@@ -51,11 +51,11 @@ package proxyutil
 //@   modifies nothing
 //@   ensures[framing-headers-come-from-the-message-fields] fromField(h, result, "Host") && fromField(h, result, "Content-Length") && fromField(h, result, "Transfer-Encoding")
 //@   ensures[every-other-header-copied-as-is] forall k string :: k != "Host" && k != "Content-Length" && k != "Transfer-Encoding" ==> has(result, k) == (h.h != nil && has(h.h, k)) && (has(result, k) ==> result[k] == h.h[k])
-//@   loop 0 invariant hm != nil && !wasAllocated(hm)
-//@   loop 0 invariant forall k string :: has(hm, k) ==> has(h.h, k) && hm[k] == h.h[k]
-//@   loop 0 invariant forall k string :: visited(k) ==> has(hm, k)
-//@   loop 1 invariant hm != nil && !wasAllocated(hm)
-//@   loop 1 invariant forall k string :: k != "Host" && k != "Content-Length" && k != "Transfer-Encoding" ==> has(hm, k) == (h.h != nil && has(h.h, k)) && (has(hm, k) ==> hm[k] == h.h[k])
-//@   loop 1 invariant (rangeindex >= 0 ==> fromField(h, hm, "Host")) && (rangeindex < 0 ==> has(hm, "Host") == (h.h != nil && has(h.h, "Host")) && (has(hm, "Host") ==> hm["Host"] == h.h["Host"]))
-//@   loop 1 invariant (rangeindex >= 1 ==> fromField(h, hm, "Content-Length")) && (rangeindex < 1 ==> has(hm, "Content-Length") == (h.h != nil && has(h.h, "Content-Length")) && (has(hm, "Content-Length") ==> hm["Content-Length"] == h.h["Content-Length"]))
-//@   loop 1 invariant (rangeindex >= 2 ==> fromField(h, hm, "Transfer-Encoding")) && (rangeindex < 2 ==> has(hm, "Transfer-Encoding") == (h.h != nil && has(h.h, "Transfer-Encoding")) && (has(hm, "Transfer-Encoding") ==> hm["Transfer-Encoding"] == h.h["Transfer-Encoding"]))
+//@   loop map 0 invariant hm != nil && !wasAllocated(hm)
+//@   loop map 0 invariant forall k string :: has(hm, k) ==> has(h.h, k) && hm[k] == h.h[k]
+//@   loop map 0 invariant forall k string :: visited(k) ==> has(hm, k)
+//@   loop slice 0 invariant hm != nil && !wasAllocated(hm)
+//@   loop slice 0 invariant forall k string :: k != "Host" && k != "Content-Length" && k != "Transfer-Encoding" ==> has(hm, k) == (h.h != nil && has(h.h, k)) && (has(hm, k) ==> hm[k] == h.h[k])
+//@   loop slice 0 invariant (rangeindex >= 0 ==> fromField(h, hm, "Host")) && (rangeindex < 0 ==> has(hm, "Host") == (h.h != nil && has(h.h, "Host")) && (has(hm, "Host") ==> hm["Host"] == h.h["Host"]))
+//@   loop slice 0 invariant (rangeindex >= 1 ==> fromField(h, hm, "Content-Length")) && (rangeindex < 1 ==> has(hm, "Content-Length") == (h.h != nil && has(h.h, "Content-Length")) && (has(hm, "Content-Length") ==> hm["Content-Length"] == h.h["Content-Length"]))
+//@   loop slice 0 invariant (rangeindex >= 2 ==> fromField(h, hm, "Transfer-Encoding")) && (rangeindex < 2 ==> has(hm, "Transfer-Encoding") == (h.h != nil && has(h.h, "Transfer-Encoding")) && (has(hm, "Transfer-Encoding") ==> hm["Transfer-Encoding"] == h.h["Transfer-Encoding"]))
